@@ -783,6 +783,20 @@ func (env *SpecEnv) call(n *ECall) SVal {
 		default:
 			return SVal{V: scalar(App("unbox_seq", SSeq, Select(Select(env.st().heapGet("LRU:val", valS), id), k))), G: "Seq"}
 		}
+	case "implements":
+		// implements(x, "pkg.Iface"): the dynamic type of interface value x implements the named interface - the test a
+		// type switch / type assertion to that interface makes (uninterpreted per interface; nil implements nothing)
+		v := env.eval(n.Args[0])
+		sx, ok := n.Args[1].(*EStr)
+		if !ok || len(v.V.Fs) != 2 {
+			unsupp("implements(interface value, \"pkg.Iface\")")
+		}
+		T := env.typeByName(sx.V)
+		it, isI := T.Underlying().(*types.Interface)
+		if !isI {
+			unsupp("implements: %s is not an interface", sx.V)
+		}
+		return gBool(And(Ne(v.V.Fs[0].T, IntLit(0)), env.e.tagImplements(v.V.Fs[0].T, it, typeKey(T))))
 	case "rvisited":
 		// rvisited(k): in an iteration invariant of a sync.Map.Range callback - key k has been handed to the callback
 		if env.rngCell == 0 {
